@@ -65,7 +65,7 @@ RecVals ==
                  [t |-> "NS", val |-> Base("NS")], [t |-> "NS", val |-> LowerAll("NS", Base("NS"))],
                  [t |-> "NSEC", val |-> Base("NSEC")], [t |-> "NSEC", val |-> LowerAll("NSEC", Base("NSEC"))],
                  [t |-> "TYPE99", val |-> Base("TYPE99")], [t |-> "OPT", val |-> Base("OPT")] }
-  IN {[class |-> c, owner |-> o, ttl |-> l, t |-> d.t, val |-> d.val] :
+  IN {[class |-> c, owner |-> o, ttl |-> l, code |-> CodeOf(d.t), t |-> d.t, val |-> d.val] :
         c \in {1, 3}, o \in {<<la>>, <<lA>>, <<lb, la>>}, l \in {0, 3600}, d \in datas}
 
 \* the table as data, for the I->S recorder
@@ -131,6 +131,8 @@ LawRdata == kind = "rdata" =>
   /\ (RdEq(t, a, b) => RdEqLoose(t, a, b))
   /\ RdEq(t, a, LowerNames(t, a))                                   \* names never matter by case
 LawRecord == kind = "record" =>
+  /\ LexCmp(QWire(a), QWire(b)) = Neg(LexCmp(QWire(b), QWire(a)))
+  /\ (LexCmp(QWire(a), QWire(b)) = 0 <=> RecSameKey(a, b))
   /\ (RecEqCore(a, b) <=> RecEqCore(b, a))
   /\ (RecCanonPinned(a, b) => RecCanonCmp(a, b) = Neg(RecCanonCmp(b, a)))
   /\ (RecCanonPinned(a, b) /\ RecCanonCmp(a, b) = 0 => RecEqCore(a, b))
@@ -173,7 +175,7 @@ EmitRdata == kind = "rdata" =>
                             exp |-> RdExp(t, a, b), dev |-> RdDev(t, a, b)]))
 
 RecIn(r) == [class |-> r.class, owner |-> ToWireAbs(r.owner), ttl |-> r.ttl,
-             rtype |-> CodeOf(r.t), rd |-> ComposeRd(r.t, r.val)]
+             rtype |-> r.code, rd |-> ComposeRd(r.t, r.val)]
 EmitRecord == kind = "record" =>
   PrintT("CASE " \o ToJson([in |-> [kind |-> kind, a |-> RecIn(a), b |-> RecIn(b),
                                     eqfree |-> RecEqFree(a, b),
@@ -182,8 +184,8 @@ EmitRecord == kind = "record" =>
 
 \* the deviation as a statement about the model (MC_Order_dev.cfg): a hash
 \* key that includes the TTL does not respect an == that ignores it
-RecHashKeyImpl(r) == IF "D_record_hash_ttl" \in Dev THEN <<r.class, LowerName(r.owner), r.ttl, r.t>>
-                     ELSE <<r.class, LowerName(r.owner), r.t>>
+RecHashKeyImpl(r) == IF "D_record_hash_ttl" \in Dev THEN <<r.class, LowerName(r.owner), r.ttl, r.code>>
+                     ELSE <<r.class, LowerName(r.owner), r.code>>
 LawRecordHash == kind = "record" =>
   ((RecEqCore(a, b) \/ (RecEqFree(a, b) /\ RdEq(a.t, a.val, b.val))) => RecHashKeyImpl(a) = RecHashKeyImpl(b))
 =============================================================================
